@@ -51,10 +51,26 @@ def diagnose(s, rows, l, clause, el):
             d += " cv" if lk["cv"] else ""
             d += " |q|<4e-4" if abs(q) < 4e-4 else ""
         return d
+    if clause in ("C07.pdd_monotone", "C07.pdd_continuous") and s.get("sweep"):
+        j = next(x for x in s["nodes"] if x["name"] == s["sweep"])
+        pe = j["pexp"] if j["has_pdd"] else s["pexp"]
+        return "sweep exponent=%d/%d %s" % (pe[0], pe[1], "per-junction" if j["has_pdd"] else "global")
     if nd is not None:
         d = {"J": "junction", "T": "tank", "R": "reservoir"}[nd["type"]]
         if nd["type"] == "T":
             d += "-vcurve" if nd["vcurve"] else ""
+            if nd["vcurve"] and clause == "C06.tank_limits" and l > 1:
+                # would the trial full hydraulic step from the previous solved row have left the curve's domain?
+                import numpy as np
+                lv = [p[0] for p in nd["vcurve"]]
+                vo = [p[1] for p in nd["vcurve"]]
+                for pr in rows[:l - 1]:
+                    v0 = float(np.interp(pr["press"][el], lv, vo))
+                    t_next = (pr["t"] // s["H"] + 1) * s["H"]
+                    v1 = v0 + pr["dem"][el] * (t_next - pr["t"])
+                    if v1 < vo[0] or v1 > vo[-1]:
+                        d += " (a trial hydraulic step leaves the volume curve's domain: clamped interpolation)"
+                        break
         if nd.get("leak", {}).get("on"):
             d += " leak"
         return d
